@@ -152,6 +152,67 @@ Proof.
   pose proof (glob_check_ok gm _ _ _ E g p Hg Hp) as Hf. rewrite Hm in Hf. discriminate.
 Qed.
 
+
+(* ---- two registrations commute (any steps, any patterns, any constraints) ------------------- *)
+
+Definition with_globs (st : state) (gs : list glob) : state :=
+  mkState (claims st) (loose st) (trees st) (steps st) gs (sinks st).
+
+Lemma first_product_with_globs st gs ms : first_product (with_globs st gs) ms = first_product st ms.
+Proof.
+  induction ms as [|m ms IH]; cbn [first_product]; [reflexivity|]. rewrite IH.
+  unfold is_product. cbn [claims with_globs]. reflexivity.
+Qed.
+
+Definition row_of (s pat : str) (subs : subs_t) (ms : list str) : glob :=
+  mkGlob s pat subs (sort_uniq (filter (gm (gkey pat subs)) ms)).
+
+(* register_nglob reads the claims and the steps, never the table itself, and appends one row *)
+Lemma register_glob_with_globs s pat subs ms st gs :
+  register_glob gm gr s pat subs ms (with_globs st gs) =
+  match register_glob gm gr s pat subs ms st with
+  | Ok _ => Ok (with_globs st (gs ++ [row_of s pat subs ms]))
+  | Err m => Err m
+  end.
+Proof.
+  unfold register_glob.
+  change (require_step (with_globs st gs) (CStep s)) with (require_step st (CStep s)).
+  destruct (require_step st (CStep s)); cbn [bind]; [|reflexivity].
+  rewrite first_product_with_globs. cbn [claims with_globs].
+  destruct (if gr then _ else _) as [[q cl]|]; [reflexivity|].
+  destruct (find_first _ _); reflexivity.
+Qed.
+
+Lemma register_glob_ok s pat subs ms st st' :
+  register_glob gm gr s pat subs ms st = Ok st' -> st' = with_globs st (globs st ++ [row_of s pat subs ms]).
+Proof.
+  unfold register_glob. intros H.
+  destruct (require_step st (CStep s)); cbn [bind] in H; [|discriminate].
+  destruct (if gr then _ else _) as [[q cl]|]; [discriminate|].
+  destruct (find_first _ _); [discriminate|]. now inversion H.
+Qed.
+
+(* Two registrations, each acceptable on its own, are accepted in both orders; the final states
+   hold the same rows (the two new rows in arrival order) and agree on everything else: a
+   registration neither hides nor replaces another one, whatever the steps, patterns and subs. *)
+Theorem glob_glob_commute st s1 p1 u1 m1 s2 p2 u2 m2 :
+  accepted (step gm ow gr st (RqGlob s1 p1 u1 m1)) = true ->
+  accepted (step gm ow gr st (RqGlob s2 p2 u2 m2)) = true ->
+  both_equiv (run gm ow gr st [RqGlob s1 p1 u1 m1; RqGlob s2 p2 u2 m2])
+             (run gm ow gr st [RqGlob s2 p2 u2 m2; RqGlob s1 p1 u1 m1]) /\
+  run gm ow gr st [RqGlob s1 p1 u1 m1; RqGlob s2 p2 u2 m2] =
+    Ok (with_globs st (globs st ++ [row_of s1 p1 u1 m1; row_of s2 p2 u2 m2])).
+Proof.
+  intros H1 H2. rewrite !run2. cbn [step] in *.
+  destruct (register_glob gm gr s1 p1 u1 m1 st) as [a|] eqn:E1; [|discriminate H1].
+  destruct (register_glob gm gr s2 p2 u2 m2 st) as [b|] eqn:E2; [|discriminate H2].
+  cbn [bind]. rewrite (register_glob_ok _ _ _ _ _ _ E1), (register_glob_ok _ _ _ _ _ _ E2).
+  rewrite !register_glob_with_globs, E1, E2. rewrite <- !app_assoc. cbn [app].
+  split; [|reflexivity]. cbn [both_equiv]. unfold state_equiv, with_globs. cbn [claims trees steps loose globs sinks].
+  repeat split; auto; intros Hin; apply in_app_or in Hin as [Hin|Hin]; apply in_or_app; auto;
+    right; cbn in *; tauto.
+Qed.
+
 End Registrations.
 
 (* Two registrations of one pattern by one step with different constraints are two rows. *)
